@@ -250,6 +250,13 @@ def eval_opt(case: dict) -> dict:
         if "c07" in want:
             for f in checks.check_c07_structure(ctx):
                 viol.append(_violation("C07", f.pop("kind"), **f))
+        if "scope" in want and rec.trace_complete:
+            for f in checks.check_scope_preservation(ctx):
+                k = f.pop("kind")
+                if k == "local-variable-captured":
+                    viol.append(_violation("C07", k, **f))
+                elif case["prop"] in ("C10", "C16", "C04"):
+                    viol.append(_violation(case["prop"], k, **f))
         if "c09" in want:
             for v in rec.contract_violations:
                 if v["contract"] == "unused_protected":
